@@ -7,6 +7,7 @@
 From Coq Require Import List NArith ZArith Bool.
 From JP Require Import Base Ast Eval ValueModel Spec Known WellFormed Regex SpellFacts SpecSteps
   Build FragParse FragBuild FragWs FragWsBuild Entry DataFacts SelFacts Purity GenParse GenBuild FilterParse FilterBuild StringLevel.
+From JP Require Import Dec2Bin NumParse RoundScale NumSpell.
 Import ListNotations.
 Open Scope Z_scope.
 
@@ -86,3 +87,30 @@ Theorem C13_blank_space_filter_free : forall q,
   parse_query (36%N :: lq_text q) = parse_query (36%N :: segs_text (lq_strip q)).
 Proof. exact blanks_irrelevant. Qed.
 Print Assumptions C13_blank_space_filter_free.
+
+(* ---- decimal spellings of one number (RoundScale.v, NumSpell.v): the nearest binary64 of a positive rational depends on the
+   rational only, so moving the decimal point against the exponent - 3e-1, 0.3, 0.30, 30e-2, 300E-3 - never changes the value the
+   parser computes for a literal; any two decimal spellings of one rational differ by such a shift.  (The guards exclude only
+   exponents beyond +-400 / below the subnormal range, where dec_to_f64 short-cuts to infinity / zero.) *)
+Theorem C13_nearest_double_depends_on_the_rational_only : forall n d k,
+  (0 < n)%Z -> (0 < d)%Z -> (0 < k)%Z -> round_ratio (k * n) (k * d) = round_ratio n d.
+Proof. exact round_ratio_scale. Qed.
+Print Assumptions C13_nearest_double_depends_on_the_rational_only.
+Theorem C13_decimal_spellings_same_value : forall i1 f1 e1 i2 f2 e2 m x1 x2 j,
+  frac_ok f1 -> expo_ok e1 -> frac_ok f2 -> expo_ok e2 -> ipart_neg i1 = ipart_neg i2 ->
+  digits_val 0 (ipart_digits i1 ++ frac_digits f1) = Some m -> expo_val e1 = Some x1 ->
+  digits_val 0 (ipart_digits i2 ++ frac_digits f2) = Some (m * 10 ^ j)%Z -> expo_val e2 = Some x2 ->
+  (0 < m)%Z -> (0 <= j)%Z ->
+  (x2 - Z.of_nat (length (frac_digits f2)) = x1 - Z.of_nat (length (frac_digits f1)) - j)%Z ->
+  (x1 - Z.of_nat (length (frac_digits f1)) <= 400)%Z ->
+  (- 800 - Z.log2 m <= x1 - Z.of_nat (length (frac_digits f1)))%Z ->
+  (- 800 - Z.log2 (m * 10 ^ j) <= x1 - Z.of_nat (length (frac_digits f1)) - j)%Z ->
+  num_value i2 f2 e2 = num_value i1 f1 e1.
+Proof. exact spellings_same_value. Qed.
+Print Assumptions C13_decimal_spellings_same_value.
+Example C13_spellings_example :
+  num_value (IZ 300) None (Some (true, EMinus, (51%N, []))) = num_value (IZ 3) None (Some (false, EMinus, (49%N, [])))
+  /\ num_value (IZ 0) (Some (51%N, [48%N])) None = num_value (IZ 0) (Some (51%N, [])) None
+  /\ num_text (IZ 300) None (Some (true, EMinus, (51%N, []))) = [51; 48; 48; 69; 45; 51]%N
+  /\ num_text (IZ 3) None (Some (false, EMinus, (49%N, []))) = [51; 101; 45; 49]%N.
+Proof. exact spellings_example. Qed.
